@@ -120,6 +120,56 @@ example : fieldsAround [({ alias := "a", name := "a", dirs := ["d"] }, Shape.lea
       ({ alias := "t", name := "__typename" }, Shape.leaf true)] := by
   simp [fieldsAround, underInterceptor, Shape.around]
 
+/-! ### executable directives on the field selection (`{ f @x }`, `_fieldMiddleware`): they wrap the field's own chain
+(schema directives, resolver), the interceptor wraps them (`Model/Exec.lean: planFields`, `fieldsAround`) -/
+
+/-- the field as selected with the executable directive `x` (outside its schema directives) -/
+def withFieldDirective (fi : FInfo) (x : String) : FInfo := { fi with dirs := fi.dirs ++ [x] }
+
+/-- **A failing executable directive on a field selection**: whatever schema directives the field definition has
+and whatever its resolver would do, none of them runs; the position is null (or propagates when non-null) with
+exactly one error at its path. -/
+theorem field_directive_error_blocks_the_field (o : Oracle) (fi : FInfo) (sh : Shape) (p : Path) (x m : String)
+    (h : o.dir p x = .err m) :
+    Spec.completeField o (withFieldDirective fi x) sh p =
+      (Spec.failed sh.nn, eff [⟨p, m⟩] [(pathStr p, "directive:" ++ x)]) := by
+  simp only [Spec.completeField, withFieldDirective, List.reverse_append, List.reverse_cons, List.reverse_nil,
+    List.nil_append, List.cons_append, Impl.runDirs, h]
+  first
+    | rfl
+    | (congr 1; apply St.ext' <;> simp [St.invoked])
+
+/-- **A panicking one**: the same, and the recover hook runs exactly once. -/
+theorem field_directive_panic_recover_once (o : Oracle) (fi : FInfo) (sh : Shape) (p : Path) (x m : String)
+    (h : o.dir p x = .panic m) :
+    Spec.completeField o (withFieldDirective fi x) sh p =
+      (Spec.failed sh.nn, eff [⟨p, "recovered: " ++ m⟩] [(pathStr p, "directive:" ++ x)] 1) := by
+  simp only [Spec.completeField, withFieldDirective, List.reverse_append, List.reverse_cons, List.reverse_nil,
+    List.nil_append, List.cons_append, Impl.runDirs, h]
+  first
+    | rfl
+    | (congr 1; apply St.ext' <;> simp [St.invoked, St.append, eff])
+
+/-- **Under an installed interceptor that lets the field through**, a failing executable directive still blocks
+everything inside it: the interceptor is invoked, then the directive, and nothing else. -/
+theorem field_directive_error_under_interceptor (o : Oracle) (fi : FInfo) (sh : Shape) (p : Path) (x m : String)
+    (ha : o.dir p "~around" = .pass) (h : o.dir p x = .err m) :
+    Spec.completeField o (underInterceptor (withFieldDirective fi x)) sh p =
+      (Spec.failed sh.nn, eff [⟨p, m⟩] [(pathStr p, "directive:~around"), (pathStr p, "directive:" ++ x)]) := by
+  simp only [Spec.completeField, underInterceptor, withFieldDirective, List.reverse_append, List.reverse_cons,
+    List.reverse_nil, List.nil_append, List.cons_append, Impl.runDirs, ha, h]
+  first
+    | rfl
+    | (congr 1; apply St.ext' <;> simp [St.invoked, St.append, eff])
+
+/-- **Fault locality**: what an executable directive does at `f` cannot change the completion of any position that
+`f` does not lie under. -/
+theorem field_directive_fault_local (o : Oracle) (f : Path) (x : String) (r : DOut) (fi : FInfo) (sh : Shape)
+    (q : Path) (h : ¬ q <+: f) :
+    Spec.completeField (o.withDir f x r) (withFieldDirective fi x) sh q =
+      Spec.completeField o (withFieldDirective fi x) sh q :=
+  single_directive_fault_local o f x r (withFieldDirective fi x) sh q h
+
 /-! non-vacuity -/
 example : ¬ ([Seg.key "a"] <+: [Seg.key "b", Seg.key "x"]) := by decide
 example : (({ res := fun _ => .val .null, dir := fun _ _ => .pass } : Oracle).withRes [.key "b"] (.panic "boom")).res [.key "b"]
